@@ -431,7 +431,58 @@ func (c *Ctx) ruleExistentialScan(rule string) {
 		}
 	}
 	if loop == nil {
-		R.Check(rule, fk, "scan over all inputs", c.P.Pos(f.Pos()), false, "the SIG_ALL scan ranges over the whole input list", "no whole-range loop over the inputs")
+		// library form: return slices.ContainsFunc(inputs, pred) - an existential scan over the whole list by
+		// the library's contract; pred answers true only for a SIG_ALL element
+		okLib, why := false, "no whole-range loop over the inputs"
+		rets := Returns(f)
+		for _, r := range rets {
+			e := o.Of(r.Results[0])
+			okLib = false
+			if !isCall(e, "slices.ContainsFunc") || len(e.Args) != 2 || e.Args[0].String() != "P:"+f.Params[0].Name() || e.Call == nil {
+				why = "returns " + short(e.String(), 120)
+				break
+			}
+			pred := resolveFuncValue(e.Call.Common().Args[1])
+			if pred == nil || len(pred.Params) != 1 {
+				why = "predicate not resolvable"
+				break
+			}
+			po := c.P.OriginsOf(pred)
+			want := fnIsSigAll + "(" + fnDeser + "#0(P:" + pred.Params[0].Name() + ".Secret))"
+			nSig := 0
+			okLib = true
+			for _, pr := range Returns(pred) {
+				for _, a := range po.Of(pr.Results[0]).Alts() {
+					switch {
+					case isConst(a, "false"):
+					case a.String() == want:
+						nSig++
+					case isConst(a, "true"):
+						if ok2, _ := po.Requires(pr, &Cond{Name: "element is SIG_ALL", Match: func(ft *Fact, _ *Origins) bool {
+							return ft.Kind == "bool" && ft.Pos && ft.A.String() == want
+						}}); ok2 {
+							nSig++
+						} else {
+							okLib, why = false, "predicate answers true without IsSigAll of the element's parsed secret"
+						}
+					default:
+						okLib, why = false, "predicate returns "+short(a.String(), 120)
+					}
+				}
+			}
+			if nSig == 0 {
+				okLib = false
+			}
+			if !okLib {
+				break
+			}
+		}
+		if okLib && len(rets) > 0 {
+			R.Check(rule, fk, "return true <= some element is SIG_ALL", c.P.Pos(f.Pos()), true, "true is returned only for a SIG_ALL element", "slices.ContainsFunc with a predicate that is true only for IsSigAll(parsed secret)")
+			R.Check(rule, fk, "return false <= list exhausted", c.P.Pos(f.Pos()), true, "false is returned only after every input was examined, wherever a SIG_ALL input sits", "slices.ContainsFunc over the whole input list")
+			return
+		}
+		R.Check(rule, fk, "scan over all inputs", c.P.Pos(f.Pos()), false, "the SIG_ALL scan ranges over the whole input list", why)
 		return
 	}
 	exhaust := NewCut()
